@@ -8,6 +8,7 @@ package vh
 
 import (
 	"fmt"
+	"github.com/semihalev/twig"
 	"strings"
 	"testing"
 	"time"
@@ -454,3 +455,92 @@ func TestC14Soup(t *testing.T) {
 }
 
 func init() { reg("C14.soup", checkC14Soup) }
+
+// ---- sizes x routes -------------------------------------------------------------------------------
+
+type C14RouteCase struct {
+	Route string `json:"route"` // register | loader | parse | registerTemplate | compiled
+	Pad   int    `json:"pad"`
+}
+
+func checkC14Route(c C14RouteCase) error {
+	pad := strings.Repeat("0123456789abcdef", c.Pad/16+1)[:c.Pad]
+	src := "A{{ a }}<" + pad + ">{% if a %}{{ a }}{% endif %}Z"
+	want := "A7<" + pad + ">7Z"
+	ctx := map[string]interface{}{"a": 7}
+	var e *twig.Engine
+	r := guard(func() (string, error) {
+		e = twig.New()
+		switch c.Route {
+		case "register":
+			if err := e.RegisterString("big", src); err != nil {
+				return "", err
+			}
+		case "loader":
+			e.RegisterLoader(twig.NewArrayLoader(map[string]string{"big": src}))
+		case "parse":
+			t, err := e.ParseTemplate(src)
+			if err != nil {
+				return "", err
+			}
+			return t.Render(ctx)
+		case "registerTemplate":
+			t, err := e.ParseTemplate(src)
+			if err != nil {
+				return "", err
+			}
+			e.RegisterTemplate("big", t)
+		case "compiled":
+			data, err := twig.SerializeCompiledTemplate(&twig.CompiledTemplate{Name: "big", Source: src, LastModified: 1700000000, CompileTime: 1700000001})
+			if err != nil {
+				return "", err
+			}
+			if err := e.LoadFromCompiledData(data); err != nil {
+				return "", err
+			}
+		}
+		return e.Render("big", ctx)
+	})
+	if r.Failed() || r.Out != want {
+		return fmt.Errorf("route %s, %d bytes of literal text in the middle: %s (output %d bytes, want %d)", c.Route, c.Pad, firstLine(r.Err)+r.Panic, len(r.Out), len(want))
+	}
+	if c.Route != "parse" {
+		// and again, and through an include
+		e.RegisterString("outer", "[{% include 'big' %}]")
+		for _, name := range []string{"big", "outer"} {
+			r2 := render(e, name, ctx)
+			w2 := want
+			if name == "outer" {
+				w2 = "[" + want + "]"
+			}
+			if r2.Failed() || r2.Out != w2 {
+				return fmt.Errorf("route %s, %d bytes: second use through %q: %s (output %d bytes, want %d)", c.Route, c.Pad, name, firstLine(r2.Err)+r2.Panic, len(r2.Out), len(w2))
+			}
+		}
+	}
+	return nil
+}
+
+// TestC14Routes: the same small program around literal text of growing size, registered,
+// loaded, parsed, registered as a template object and loaded from compiled data.
+func TestC14Routes(t *testing.T) {
+	r := NewRec(t, "C14", "exhaustive: five ways of getting a template into an engine (RegisterString, loader, ParseTemplate, RegisterTemplate, compiled data) x literal text of 0 .. 2 MiB around the powers of two (4096, 8192, 32768, 65536, 131072, 262144, 1048576, 2097152, each -1/0/+1) in the middle of a small program; rendered, rendered again and included; oracle: program output with the text in place; non-trivial = text above 4096 bytes")
+	defer r.Flush()
+	r.SetExhaustive()
+	var pads []int
+	for _, p := range []int{4096, 8192, 32768, 65536, 131072, 262144, 1 << 20, 2 << 20} {
+		pads = append(pads, p-1, p, p+1)
+	}
+	pads = append(pads, 0, 1, 100)
+	for _, route := range []string{"register", "loader", "parse", "registerTemplate", "compiled"} {
+		for _, p := range pads {
+			c := C14RouteCase{Route: route, Pad: p}
+			r.Case(fmt.Sprint(route, p), p > 4096, c, "route:"+route)
+			if err := checkC14Route(c); err != nil {
+				r.FailEnumKey(t, "C14.route", route, c, err)
+			}
+		}
+	}
+}
+
+func init() { reg("C14.route", checkC14Route) }
